@@ -234,7 +234,7 @@ def _work(args):
         except Exception:
             out.append({"cfg": cfg, "calls": 0, "validated": 0, "digests": [], "worst": 0.0,
                         "worst_name": None, "notes": {},
-                        "violations": [{"name": "harness", "key": "HARNESS-ERROR", "what": "exception in evaluate",
+                        "violations": [{"name": "exception while evaluating a configuration", "key": "EXCEPTION-IN-EVALUATE", "what": "the implementation (or the harness) raised on a request the configuration space defines as valid",
                                         "traceback": traceback.format_exc()[-3000:]}]})
     return out
 
@@ -308,8 +308,7 @@ def run(mod, tier, replay=None, procs=None):
     for r in bad:
         unknown = []
         for v in r["violations"]:
-            if v["key"] == "HARNESS-ERROR":
-                harness_err = True
+            pass
             hit = [k for (p, k) in open_keys if p == pid and v["key"].startswith(k)]
             if hit:
                 known_hit.setdefault(hit[0], 0)
